@@ -1038,3 +1038,137 @@ def r13(R):
     for v in vs[:1]:
         R.violation(v.node, v.message, g, v.path,
                     key='database name written unchecked')
+
+
+# ----------------------------------------------------------------- C14.R14
+@rule('C14.R14', 'whether a reference is written with a database name is '
+      'decided by `is None` tests of the name, in every branch of the writer '
+      'alike: a database may be named "" (a truth test takes that name for '
+      '"this database")', min_instances=2)
+def r14(R):
+    w = R.prog.cls(WRITER)
+    f = R.method(w, 'persistent_id')
+    dbnames = {t.id for a in walk_local(f.node)
+               if isinstance(a, ast.Assign) and isinstance(
+                   a.value, ast.Attribute) and
+               a.value.attr == 'database_name'
+               for t in a.targets if isinstance(t, ast.Name)}
+    R.require(dbnames, 'persistent_id no longer keeps the target\'s '
+              'database name in a local')
+    n = 0
+    for t in walk_local(f.node):
+        if not isinstance(t, (ast.If, ast.IfExp, ast.While)):
+            continue
+
+        def atoms(e):
+            if isinstance(e, ast.BoolOp):
+                for v in e.values:
+                    yield from atoms(v)
+            elif isinstance(e, ast.UnaryOp) and isinstance(e.op, ast.Not):
+                yield from atoms(e.operand)
+            else:
+                yield e
+        for e in atoms(t.test):
+            if isinstance(e, ast.Compare) and len(e.ops) == 1 and \
+                    isinstance(e.left, ast.Name) and e.left.id in dbnames \
+                    and isinstance(e.comparators[0], ast.Constant) and \
+                    e.comparators[0].value is None:
+                n += 1
+                R.instance('persistent_id: %s' % ast.unparse(e))
+            if isinstance(e, ast.Name) and e.id in dbnames:
+                n += 1
+                R.instance('persistent_id: truth test of %s' % e.id)
+                R.violation(
+                    (f.module.relpath, f.qualname,
+                     ' '.join(ast.unparse(t.test).split()), t.lineno),
+                    'persistent_id decides with the TRUTH of `%s` whether '
+                    'the reference gets a database name: a reference into '
+                    'a database named "" is written as a plain oid and '
+                    'resolves, on load, to whatever object of the '
+                    'referrer\'s own database has that oid (the sibling '
+                    'branches test `is None`)' % e.id,
+                    key='database name decided by truth, not None-ness')
+    R.require(n >= 2, 'expected the None tests of the database name in the '
+              'two named-reference branches; found %d' % n)
+
+
+# ----------------------------------------------------------------- C14.R15
+@rule('C14.R15', 'after the connection\'s cache was replaced, its reader '
+      'resolves references in the NEW cache (one in-memory object per id '
+      'per connection: get()/root() and reference loading agree)',
+      props=['C11'], min_instances=1)
+def r15(R):
+    conn = R.prog.cls('ZODB.Connection.Connection')
+    f = R.method(conn, '_resetCache')
+    g, b, F = R.cfg(f, conn, max_depth=0)
+
+    def token(e, st):
+        """which cache object an expression denotes"""
+        conn_t, reader_t, loc = st
+        if dotted(e) == ('self', '_cache'):
+            return conn_t
+        if isinstance(e, ast.Name):
+            return dict(loc).get(e.id, 'unknown:' + e.id)
+        if isinstance(e, ast.Call) and dotted(e.func) and \
+                dotted(e.func)[-1] == 'PickleCache':
+            return 'new@%d' % e.lineno
+        return 'unknown'
+
+    def edge(node, st, lab, tgt):
+        conn_t, reader_t, loc = st
+        if node.kind == 'test' and lab in ('T', 'F'):
+            # no reader yet: nothing to rebind
+            for e, truth in implied_atoms(node.ast, lab):
+                if isinstance(e, ast.Compare) and len(e.ops) == 1 and \
+                        isinstance(e.comparators[0], ast.Constant) and \
+                        e.comparators[0].value is None and any(
+                            isinstance(x, ast.Constant) and
+                            x.value == '_reader' or
+                            isinstance(x, ast.Attribute) and
+                            x.attr == '_reader' for x in ast.walk(e.left)):
+                    if isinstance(e.ops[0], ast.Is) == truth:
+                        return (conn_t, 'absent', loc)
+        if lab in ('e', 'eb'):
+            return st
+        s_ = node.ast
+        if isinstance(s_, ast.Assign):
+            v = s_.value
+            if isinstance(v, ast.Call) and dotted(v.func) and \
+                    dotted(v.func)[-1] == 'ObjectReader':
+                arg = v.args[1] if len(v.args) > 1 else None
+                t = token(arg, st) if arg is not None else 'unknown'
+                if any(dotted(x) == ('self', '_reader') for x in s_.targets):
+                    reader_t = t
+            else:
+                t = token(v, st)
+                d = dict(loc)
+                for x in s_.targets:
+                    if dotted(x) == ('self', '_cache'):
+                        conn_t = t
+                    elif dotted(x) == ('self', '_reader', '_cache'):
+                        reader_t = t
+                    elif isinstance(x, ast.Name):
+                        d[x.id] = t
+                loc = tuple(sorted(d.items()))
+        return (conn_t, reader_t, loc)
+
+    def at(node, st):
+        conn_t, reader_t, loc = st
+        if node.id == g.exit_return and reader_t != 'absent' and \
+                reader_t != conn_t:
+            return Violation(
+                '_resetCache leaves the connection with the cache `%s` and '
+                'its reader with `%s`: get() and root() use the new cache '
+                'while every reference is resolved in the other one -- two '
+                'in-memory objects for one id; a change made through one '
+                'of them cannot be committed ("Cache values may only be in '
+                'one cache")' % (conn_t, reader_t))
+        return st
+
+    vs, stats = explore(g, ('old', 'old', ()), at=at, edge=edge)
+    R.count(stats)
+    R.instance('Connection._resetCache')
+    for v in vs[:1]:
+        R.violation(v.node, v.message, g, v.path, at_root=True,
+                    key='reader left with another cache than the '
+                        'connection')
